@@ -93,3 +93,13 @@ pub fn p_c19_pullback(depth: u8, x: f64, y: f64) {
     a += 1;
   }
 }
+
+/// Native: the position at offsets (a/256, b/256) of cell h (offsets of exactly 1 are pulled slightly inside).
+#[cfg(not(kani))]
+pub fn p_c19_cell(depth: u8, h: u64, a: u16, b: u16) {
+  if !(depth <= 29 && h < spec_n_hash(depth) && a <= 256 && b <= 256) { return; }
+  let dx = (a as f64 / 256.0).min(0.9999999);
+  let dy = (b as f64 / 256.0).min(0.9999999);
+  let (lon, lat) = hp::nested::sph_coo(depth, h, dx, dy);
+  p_c19_point(depth, lon, lat);
+}
